@@ -34,7 +34,7 @@ class TaskRec:
     __slots__ = (
         "pool", "tid", "req", "inv", "begun", "finished", "outcome", "pending",
         "owed", "seen", "self_pending", "ccb", "ecb", "complete", "unbegun_cancelled",
-        "forget", "task", "events", "susp_after_self", "cancel_ops", "done_unknown", "claim", "counted", "vias",
+        "forget", "task", "events", "susp_after_self", "cancel_ops", "done_unknown", "claim", "counted", "vias", "extra_ok",
     )
 
     def __init__(self, pool, tid, req=None):
@@ -58,6 +58,7 @@ class TaskRec:
         self.events = []  # per-id event kinds, in order
         self.cancel_ops = 0
         self.done_unknown = False
+        self.extra_ok = 0  # cancellations that may (or may not) reach its callbacks because the caller of a flush gathering it was cancelled
         self.vias = set()  # routes by which cancellations were requested: id / group / stop
         self.counted = False  # counted in PoolRec.A (admitted, not finished)
         self.claim = None  # request whose group lists this id (pool's claim)
@@ -191,3 +192,5 @@ class FlushRec:
         self.suspended = 0
         self.overlap_cb = False
         self.overlap_other = False
+        self.abandoned = False
+        self.in_cb_at_call = set()
